@@ -384,18 +384,21 @@ def promptness_oracle(sc, run):
     ready_at_next = False
     base = 0
     failing, b0 = set(), 0
+    failed = False
     for c in sc.calls:
         failing |= {b0 + p for p in c.fail}
         b0 += c.n
     for e in run.log:
         if (e.startswith("exec ") and int(e.split()[1]) in failing) or e.startswith("pull-raise"):
             ready_at_next = False
-            expect = -1  # a failure is being surfaced (C04): promptness no longer applies to this call
+            failed = True  # a failure is being surfaced (C04): promptness no longer applies to this call
+            expect = -1
         if e.startswith("call "):
             k = int(e.split()[1])
             base = sum(c.n for c in sc.calls[:k])
             expect = base
             in_next = False
+            failed = False
         elif e == "next":
             in_next = True
             ready_at_next = expect in done
@@ -405,7 +408,8 @@ def promptness_oracle(sc, run):
                 ready_at_next = False
             done |= set(ids_of(e))
         elif e.startswith("yield "):
-            expect = int(e.split()[1]) + 1
+            # results of batches completed BEFORE the failure may still be yielded; they do not re-arm the oracle
+            expect = -1 if failed else int(e.split()[1]) + 1
             in_next = False
         elif e.startswith(("raise", "stop", "closed", "dropped")):
             in_next = False
